@@ -131,13 +131,15 @@ func (its *PushPullHandler) initialize(retCh chan *model.PushPullPack) errors.Or
 	return nil
 }
 
-func (its *PushPullHandler) finalize() {
+func (its *PushPullHandler) finalize(locked bool) {
 	if r := recover(); r != nil {
 		its.ctx.L().Errorf("recover panic [%v]: %v", r, string(debug.Stack()))
 
 		return
 	}
-	defer its.lock.Unlock()
+	if locked {
+		defer its.lock.Unlock()
+	}
 	if its.err == nil {
 		its.ctx.L().Infof("finish with CP %v -> %v and pulled ops: %d",
 			its.initialCP.ToString(), its.currentCP.ToString(), len(its.resPushPullPack.Operations))
@@ -185,11 +187,16 @@ func (its *PushPullHandler) logInitialConditions() {
 
 func (its *PushPullHandler) process(retCh chan *model.PushPullPack) {
 
-	its.lock.TryLock()
+	locked := its.lock.TryLock()
 
-	defer its.finalize()
+	defer its.finalize(locked)
 
 	if its.err = its.initialize(retCh); its.err != nil {
+		return
+	}
+
+	if !locked {
+		its.err = errors.PushPullAbortionOfServer.New(its.ctx.L(), "fail to lock "+its.getLockKey())
 		return
 	}
 
